@@ -184,6 +184,16 @@ fn apply(st: &mut State, step: &Step, counts: &mut Vec<&'static str>) -> Result<
             if let Err(e) = d {
                 vcheck!(e.0 == code, "intres.code_altered", "from_int_result_empty", "code {} decoded as {}", code, e.0);
             }
+            // codes a foreign callee may return for the shipped unit-like error types: any
+            // non-zero code is an error (the encoder's own choice of code is not the only one)
+            let du: Result<(), ()> = from_int_result_empty(code);
+            vcheck!(du.is_ok() == (code == 0), "intres.decoded_ok_from_error", "from_int_result_empty::<()>", "code {} decoded as {:?}", code, du);
+            let df: Result<(), std::fmt::Error> = from_int_result_empty(code);
+            vcheck!(df.is_ok() == (code == 0), "intres.decoded_ok_from_error", "from_int_result_empty::<fmt::Error>", "code {} decoded as {:?}", code, df);
+            let mut slot = fresh_slot::<u64>();
+            unsafe { slot.as_mut_ptr().write(7) };
+            let dv: Result<u64, ()> = unsafe { from_int_result(code, slot) };
+            vcheck!(dv == if code == 0 { Ok(7) } else { Err(()) }, "intres.decoded_ok_from_error", "from_int_result::<u64, ()>", "code {} decoded as {:?}", code, dv);
             // shipped error types never encode to 0
             let z = std::io::Error::from_raw_os_error(0).into_int_err().get();
             vcheck!(z != 0, "intres.err_encoded_as_zero", "io::Error", "io::Error with OS code 0 encoded as 0");
